@@ -182,6 +182,14 @@ prop("C05",
 EXTRA_LANES["C05"] = [miri_lane()]
 
 
+prop("C11",
+     title="Hostile or corrupt server bytes cannot crash or wedge the connection",
+     rule="inputs: random bytes; random bodies behind a plausible SEQUENCE header; structural single and double mutations of valid response messages of every type (element deleted/duplicated/appended, class or tag changed, constructed<->primitive swapped, emptied, primitive content replaced incl. widened/negative integers and non-UTF-8, children reversed); byte-level mutations (every length field +-1/+-big/other form, truncation, bit flips, byte replace/insert/delete); hand-picked classics (30 00, inner length exceeding outer, missing ID, empty BOOLEAN, unknown op for a search ID, malformed SearchResultDone); nesting up to depth 60. decoder lane (H4, real decode function, catch_unwind per input): a panic is a violation; 'need more' while the buffer already holds the outer TLV's announced length is a wedge. driver lane: a bind pending on ID 1 and a search (0-2 entries already delivered) on ID 2, then the hostile frame addressed to one of them, optionally followed by valid responses, then EOF: drive() must return without panicking, both callers must resolve under the virtual-time watchdog, and a frame that is not an envelope (outer not a universal SEQUENCE, <2 elements, first element not an INTEGER in 0..2^31-1) must end the connection with an error both callers observe. stack lane: child processes decode and drive nested TLVs (three shapes) of depth 10..250000 (up to ~1 MB) on 2 MiB thread stacks; death by signal is a violation, inability to spawn is inconclusive. distinct = distinct input byte strings",
+     claim="held on every hostile input of this run (no decoder or driver panic, no wedge, no hang, no stack overflow up to the probed depth); caller-side panics on malformed single-operation results are counted in the evidence but not judged because the property speaks of the connection driver",
+     design="3/C11", technique="mutation-based hostile-input monitor on the real decoder (catch_unwind) and the real driver (virtual-time watchdog), plus a subprocess stack probe",
+     note=NETWORLD + "; 'complete frame' is judged by the harness' own BER header parser; first bytes with tag number 31 are not judged for wedging")
+
+
 # ---- properties not (yet) claimed ----
 def _na():
     out = []
